@@ -739,9 +739,62 @@ func ruleR11_2(p *Program, r *Report) {
 		return
 	}
 	// pendingZero: fact "writePos - readPos <= 0" or "writePos == readPos"
+	// factFresh: the position fields the fact was computed from have not been written since (a call into a
+	// method that may store writePos/readPos - step - invalidates it)
+	var curAt ssa.Instruction
+	factFresh := func(f Fact) bool {
+		if curAt == nil {
+			return true
+		}
+		fn := curAt.Parent()
+		var loads []ssa.Instruction
+		var collect func(v ssa.Value, d int)
+		collect = func(v ssa.Value, d int) {
+			if v == nil || d > 4 {
+				return
+			}
+			if _, sel, ok := fieldLoad(v); ok && (sel == ".writePos" || sel == ".readPos") {
+				if in, ok := v.(ssa.Instruction); ok {
+					loads = append(loads, in)
+				}
+				return
+			}
+			if in, ok := v.(ssa.Instruction); ok {
+				for _, op := range in.Operands(nil) {
+					collect(*op, d+1)
+				}
+			}
+		}
+		collect(f.X, 0)
+		collect(f.Y, 0)
+		writer := func(x ssa.Instruction) bool {
+			if st, ok := x.(*ssa.Store); ok {
+				_, sel := accessPath(st.Addr)
+				return sel == ".writePos" || sel == ".readPos"
+			}
+			if c, ok := x.(ssa.CallInstruction); ok {
+				if g := c.Common().StaticCallee(); g != nil && g.Blocks != nil && p.InRepo(g) {
+					for i := range c.Common().Args {
+						for _, w := range p.Effects().ParamWrites(g, i) {
+							if w == ".writePos" || w == ".readPos" {
+								return true
+							}
+						}
+					}
+				}
+			}
+			return false
+		}
+		for _, ld := range loads {
+			if ld.Parent() == fn && interveningWriter(fn, ld, curAt, writer, nil) {
+				return false
+			}
+		}
+		return true
+	}
 	noPending := func(facts []Fact) bool {
 		for _, f := range facts {
-			if f.Y == nil {
+			if f.Y == nil || !factFresh(f) {
 				continue
 			}
 			{
@@ -778,10 +831,10 @@ func ruleR11_2(p *Program, r *Report) {
 			if e == nil || !isStickyLoad(e, recv, "err") {
 				continue
 			}
-			if k, isK := constInt(ret.Results[0]); !(isK && k == 0) {
-				continue // returns together with data
-			}
+			// (a return that hands out data together with the stored error sits behind 'everything pending was copied',
+			// which is the same nothing-pending fact: no return is exempt)
 			n++
+			curAt = ret
 			r.Check(noPending(dominatingFacts(ret)), "R11.2", shortFn(rd)+"|replay after data", p.InstrPos(ret), "the stored error is replayed only when no decoded data is pending", "the error return is not behind the 'nothing pending' edge: decoded data would be withheld")
 		}
 	}
@@ -801,6 +854,7 @@ func ruleR11_2(p *Program, r *Report) {
 				continue
 			}
 			if k, isK := constInt(s.Val); isK && k == finish {
+				curAt = s
 				if !noPending(dominatingFacts(s)) {
 					phaseFinishGuarded = false
 				}
@@ -821,6 +875,7 @@ func ruleR11_2(p *Program, r *Report) {
 			}
 			m++
 			facts := dominatingFacts(u)
+			curAt = u
 			ok2 := noPending(facts)
 			if !ok2 && phaseFinishGuarded {
 				for _, f := range facts {
@@ -914,6 +969,27 @@ func ruleR09_2(p *Program, r *Report) {
 		return
 	}
 	fn := tr.Ops["Write"]
+	writeOp := fn
+	// the accumulate loop may have been moved into a helper method that Write hands its data to unchanged
+	hasAcc := func(g *ssa.Function) bool {
+		for _, c := range allCalls(g) {
+			if c.Common().IsInvoke() && c.Common().Method.Name() == "Accumulate" {
+				return true
+			}
+		}
+		return false
+	}
+	if !hasAcc(fn) {
+		for _, c := range allCalls(fn) {
+			h := c.Common().StaticCallee()
+			if h == nil || h.Blocks == nil || h.Signature.Recv() == nil || len(c.Common().Args) < 2 || len(h.Params) < 2 {
+				continue
+			}
+			if c.Common().Args[0] == ssa.Value(fn.Params[0]) && c.Common().Args[1] == ssa.Value(fn.Params[1]) && hasAcc(h) {
+				fn = h
+			}
+		}
+	}
 	recv := fn.Params[0]
 	data := fn.Params[1]
 	var acc, comp []ssa.CallInstruction
@@ -999,8 +1075,16 @@ func ruleR09_2(p *Program, r *Report) {
 	r.Check(bad == "", "R09.2", shortFn(fn)+"|no per-call state", p.Pos(fn.Pos()), "Write keeps no state of its own between calls (only the sticky error)", bad)
 	// (d) nobody else calls Accumulate
 	for _, g := range p.Funcs() {
-		if g == fn || isExamples(g) {
+		if g == fn || g == writeOp || isExamples(g) {
 			continue
+		}
+		if g != fn {
+			// the helper itself must be called by Write only
+			for _, c := range allCalls(g) {
+				if c.Common().StaticCallee() == fn && fn != writeOp {
+					r.Fail("R09.2", shortFn(g)+"|"+fn.Name(), p.InstrPos(c), "only Writer.Write feeds the compressor", "another caller of the accumulate helper")
+				}
+			}
 		}
 		for _, c := range allCalls(g) {
 			if c.Common().IsInvoke() && c.Common().Method.Name() == "Accumulate" {
@@ -1064,7 +1148,15 @@ func ruleR05_4(p *Program, r *Report) {
 				key := shortFn(fn) + "|" + lab.get("const store ."+fname)
 				empty := false
 				for _, f := range dominatingFacts(st) {
-					if f.Y == nil || f.Op != token.EQL {
+					if f.Y == nil {
+						continue
+					}
+					// bitsLen == 0, or bitsLen < 0 / <= 0 (the parser ran past its input: no whole byte is held)
+					okOp := f.Op == token.EQL
+					if k0, isK0 := constInt(f.Y); isK0 && k0 == 0 && (f.Op == token.LSS || f.Op == token.LEQ) {
+						okOp = true
+					}
+					if !okOp {
 						continue
 					}
 					for _, pair := range [][2]ssa.Value{{f.X, f.Y}, {f.Y, f.X}} {
